@@ -151,7 +151,7 @@ CONTRACTS = {
             "C03.A6b the state is marked as having run": "self.ran",
             "C03.A7 on consecutive calls neither clock origin moves (so tm and state_tm are non-decreasing)":
                 "implies(not initial_call, self.start_time == old(self.start_time) and START(sm) == old(START(sm)))",
-            "C03.A8 a machine started in this iteration has tm == 0": "implies(old(SE(sm)) and not old(EN(sm)) and not (self is DF(sm)), tm == 0)",
+            "C03.A8 (also C04, C13: tm restarts at zero) a machine started in this iteration has tm == 0": "implies(old(SE(sm)) and not old(EN(sm)) and not (self is DF(sm)), tm == 0)",
             "C04.A2 falling back to the default state goes through done()":
                 "implies(self is DF(sm) and old(ST(sm)) is not None and not (old(ST(sm)) is DF(sm)) "
                 "and not (expired0(sm, tm) and old(ST(sm)).next_state is not None and target(sm, old(ST(sm))) is DF(sm)), "
